@@ -18,6 +18,16 @@ pub enum Ctor {
     WindowPartitionBy(ColRefSpec),
     WindowPartitionByCustom(String),
     CteFromSelect(Sub),
+    /// `table.get_columns()[i].clone()` (falls back to ColumnDef::new("none") when empty)
+    ColumnDefFromTable(Sub, u8),
+    /// `table.get_indexes()[i].clone()`
+    IndexCreateFromTable(Sub, u8),
+    /// `table.get_foreign_key_create_stmts()[i].clone()`
+    FkCreateFromTable(Sub, u8),
+    /// `index.get_index_spec().clone()`
+    TableIndexFromIndex(Sub),
+    /// `fk.get_foreign_key().clone()`
+    TableFkFromFk(Sub),
 }
 
 #[derive(Clone, Debug, PartialEq, Serialize, Deserialize)]
@@ -462,6 +472,47 @@ pub fn construct(fam: Family, ctor: &Ctor, cx: &mut Ctx) -> Stmt {
         (Family::Cte, Ctor::CteFromSelect(s)) => {
             Stmt::Cte(CommonTableExpression::from_select(cx.sub_select(s)))
         }
+        (Family::ColumnDef, Ctor::ColumnDefFromTable(t, i)) => cx.sub_with_ref(t, |st| match st {
+            Stmt::TableCreate(t) => {
+                let cols = t.get_columns();
+                if cols.is_empty() {
+                    Stmt::ColumnDef(ColumnDef::new(crate::seams::SimIden { name: "none".into(), live: false }))
+                } else {
+                    Stmt::ColumnDef(cols[*i as usize % cols.len()].clone())
+                }
+            }
+            o => panic!("HARNESS: ColumnDefFromTable of {:?}", o.family()),
+        }),
+        (Family::IndexCreate, Ctor::IndexCreateFromTable(t, i)) => cx.sub_with_ref(t, |st| match st {
+            Stmt::TableCreate(t) => {
+                let v = t.get_indexes();
+                if v.is_empty() {
+                    Stmt::fresh(Family::IndexCreate)
+                } else {
+                    Stmt::IndexCreate(v[*i as usize % v.len()].clone())
+                }
+            }
+            o => panic!("HARNESS: IndexCreateFromTable of {:?}", o.family()),
+        }),
+        (Family::FkCreate, Ctor::FkCreateFromTable(t, i)) => cx.sub_with_ref(t, |st| match st {
+            Stmt::TableCreate(t) => {
+                let v = t.get_foreign_key_create_stmts();
+                if v.is_empty() {
+                    Stmt::fresh(Family::FkCreate)
+                } else {
+                    Stmt::FkCreate(v[*i as usize % v.len()].clone())
+                }
+            }
+            o => panic!("HARNESS: FkCreateFromTable of {:?}", o.family()),
+        }),
+        (Family::TableIndex, Ctor::TableIndexFromIndex(t)) => cx.sub_with_ref(t, |st| match st {
+            Stmt::IndexCreate(i) => Stmt::TableIndex(i.get_index_spec().clone()),
+            o => panic!("HARNESS: TableIndexFromIndex of {:?}", o.family()),
+        }),
+        (Family::TableFk, Ctor::TableFkFromFk(t)) => cx.sub_with_ref(t, |st| match st {
+            Stmt::FkCreate(f) => Stmt::TableFk(f.get_foreign_key().clone()),
+            o => panic!("HARNESS: TableFkFromFk of {:?}", o.family()),
+        }),
         (f, Ctor::Default) => Stmt::fresh(f),
         (f, c) => panic!("HARNESS: ctor {:?} not valid for {:?}", c, f),
     }
